@@ -172,6 +172,16 @@ def gen_plan(seed, index, tier):
             ds = _cls_dataset(rng, False)
             ds["rows"] = [(r[0], r[1], rng.choice([0.0, 0.2, 0.4, 0.6, 0.8, 1.0, round(rng.random(), 2)])) for r in ds["rows"]]
             plan["data"].append(ds)
+        if rng.random() < 0.4:
+            # a second audit of the same X: as many rows, but the rows belong to other groups (and some targets moved)
+            base_rows = plan["data"][0]["rows"]
+            groups = sorted({r[1] for r in base_rows})
+            for _ in range(50):
+                new = [(x, rng.choice(groups) if rng.random() < 0.5 else g,
+                        rng.choice([0.0, 0.2, 0.4, 0.6, 0.8, 1.0]) if rng.random() < 0.3 else y) for (x, g, y) in base_rows]
+                if len({r[1] for r in new}) >= 2 and [r[1] for r in new] != [r[1] for r in base_rows]:
+                    plan["data"][1] = {"rows": new, "x_from": 0}
+                    break
     elif cls == "CR":
         widths = [rng.randint(3, 6) for _ in range(ndata)]
         if rng.random() < 0.5:
